@@ -102,8 +102,10 @@ def job_shift_nominal(ctx, mode, fmt, reps, iv, unit, lo, hi, rep="cal", ranges=
     C.set_mode(data, mode)
     install_range_summary(data, mode)
     kw = IV[iv]
+    holder = {}
 
     def make(e):
+        holder.clear()
         return {"a": anchor_input(e, data, "", rep), "n": e.var("n", lo, hi)}
 
     def pre(i):
@@ -111,18 +113,27 @@ def job_shift_nominal(ctx, mode, fmt, reps, iv, unit, lo, hi, rep="cal", ranges=
 
     def body(i):
         a, n = i["a"], i["n"]
+        holder.clear()
         d = data.Duration(**kw)
         r = build(data, fmt, reps, a, d, a + d if fmt == 1 else None)
         s = data.Duration(**{unit: n})
-        o = {"r": r, "moved": r + s, "radd": s + r, "sub": r - data.Duration(**{unit: -n}), "want": {}}
         names = {1: ("_start_point", "_second_point"), 3: ("_start_point",), 4: ("_end_point",)}[fmt]
-        for name in names:
-            o["want"][name] = getattr(r, name) + s
-        return o
+        want = {name: getattr(r, name) + s for name in names}
+        holder["want"] = want
+        return {"r": r, "moved": r + s, "radd": s + r, "sub": r - data.Duration(**{unit: -n}), "want": want}
 
     def post(i, out):
         if out[0] != "ok":
-            return [("no exception", False)]
+            want = holder.get("want")
+            # (OverflowError: the refusal's message prints the anchors, and the harness' symbolic points carry six-digit
+            # years without expanded-year digits; the replay builds them with the digits and sees the BadInputError)
+            if fmt == 1 and isinstance(out[1], (ValueError, OverflowError)) and want:
+                # month-end clamping can move the start past the second point (01-29T12:00 / 01-31T00:00 + P3M ->
+                # 04-28T12:00 / 04-28T00:00): no start/end recurrence has those anchors, refusing it is the only answer
+                ws, we = want["_start_point"], want["_second_point"]
+                return [("refused (ValueError) only when the moved anchors are out of order",
+                         L(C.m_instant(mode, ws, rep)) > L(C.m_instant(mode, we, rep)))]
+            return [("no exception (%s%s)" % (type(out[1]).__name__, "" if want else ", before the anchors were moved"), False)]
         o = out[1]
         r, m = o["r"], o["moved"]
         if fmt == 1 and m._repetitions != r._repetitions:
@@ -353,7 +364,12 @@ def _replay_shift_nominal(case, data, mode):
     s = data.Duration(**case["shift"])
     neg = data.Duration(**{k: -v for k, v in case["shift"].items()})
     names = {1: ("_start_point", "_second_point"), 3: ("_start_point",), 4: ("_end_point",)}[fmt]
-    for lab, z in (("r + d", r + s), ("d + r", s + r), ("r - (-d)", r - neg)):
+    try:
+        results = (("r + d", r + s), ("d + r", s + r), ("r - (-d)", r - neg))
+    except ValueError as exc:
+        inverted = fmt == 1 and C.py_instant(mode, r._start_point + s) > C.py_instant(mode, r._second_point + s)
+        return (not inverted), "%s + %s raised %s: %s (moved anchors out of order: %s)" % (r, s, type(exc).__name__, exc, inverted)
+    for lab, z in results:
         if z._repetitions != r._repetitions:
             coincide = fmt == 1 and str(r._start_point + s) == str(r._second_point + s)
             if not (coincide and z._repetitions == 1):
